@@ -25,7 +25,7 @@ impl Repr {
 //@@ SIG rational/repr/reduce2.rs
 }
 //@@ FN rational/float/repr_try_from_float.rs
-//@@ FN rational/float/try_from_float_repr.rs variant=rbig minvoke=0 mexpect=t:RBig
-//@@ FN rational/float/try_from_float_repr.rs variant=relaxed minvoke=1 mexpect=t:Relaxed
+//@@ FN rational/float/try_from_float_repr.rs variant=rbig minvoke=0 mexpect=t:RBig mbase=t:RBig,reduce:reduce
+//@@ FN rational/float/try_from_float_repr.rs variant=relaxed minvoke=1 mexpect=t:Relaxed mbase=t:Relaxed,reduce:reduce2
 } // verus!
 fn main() {}
